@@ -267,6 +267,21 @@ def run(ctx):
             if g.exit.id in g.reach([g.entry], avoid=need, edge_ok=scen_edge): ok = False
     ctx.ob('C28-WRAP._attr_changed_-marks-and-queues', ac, wb[0].ast if wb else ac.node, ok,
            '' if ok else '_attr_changed_ does not set the write bit / status / save queue')
+    # ... and for an object that is *already* queued as modified (through another attribute) the write bit of this attribute is still added: the
+    # in-place change has happened, without the bit the column is left out of the UPDATE.  Scenario status == 'modified'.
+    from ..q import value_atom as _va, const_sets as _cs
+    subj_ = '%s._status_' % ac.recv
+    def other_(text, node):
+        if any(text == wn + ' is None' for wn in wb_names): return False
+        if any(text == wn + ' is not None' for wn in wb_names): return True
+        if isinstance(node, ast.Name) and node.id.startswith('bit'): return True
+        return None
+    from ..typestate import scenario_edges as _se2
+    eo_m = _se2(g, ac.node, _va(ac.node, subj_, 'modified', _cs(ac.mod), other_), resolve=True)
+    okm = bool(wb) and g.exit.id not in g.reach([g.entry], avoid=wb, edge_ok=lambda x, y, lab: lab != 'exc' and eo_m(x, y, lab))
+    ctx.ob('C28-WRAP._attr_changed_-adds-the-write-bit-for-an-object-that-is-modified-already', ac, wb[0].ast if wb else ac.node, okm,
+           '' if okm else 'for an object whose status is already \'modified\' _attr_changed_ can return without adding the attribute\'s write bit: an in-place change of a Json / array '
+           'value made after another attribute was assigned is left out of the UPDATE')
     # ---------------------------------------------------------------- OWNER
     # a value that is already tracked may be handed back unchanged only if it is tracked for *this* object and attribute:
     # all instances of an entity share the attribute object, so an attr-only test keeps the value bound to another owner
@@ -440,6 +455,8 @@ MUTANTS = [
     dict(id='C28-oa1', file='pony/orm/core.py', fn='Attribute.db_set', old="attr.converters[0].dbval2val(new_dbval, obj)", new="attr.converters[0].dbval2val(new_dbval)", expect='C28-OWNERARG'),
     dict(id='C28-kw1', file='pony/orm/ormtypes.py', fn='tracked_method', old="            if kwargs: kwargs =", new="            if kwargs and not args: kwargs =", expect='C28-WRAP.wrapper-adopts'),
     dict(id='C28-kw2', file='pony/orm/ormtypes.py', fn='tracked_method', old="            if kwargs: kwargs = {key: TrackedValue.make(obj, attr, value) for key, value in kwargs.items()}", new="            kwargs = {key: TrackedValue.make(obj, attr, value) for key, value in kwargs.items()}", benign=True),
+    dict(id='C28-mod1', file='pony/orm/core.py', fn='Entity._attr_changed_', old="            obj._wbits_ |= bit\n            if status != 'modified':\n                assert status in ('loaded', 'inserted', 'updated')\n                assert obj._save_pos_ is None\n                obj._status_ = 'modified'\n",
+         new="            if status != 'modified':\n                assert status in ('loaded', 'inserted', 'updated')\n                assert obj._save_pos_ is None\n                obj._status_ = 'modified'\n                obj._wbits_ = wbits | bit\n", expect='C28-WRAP._attr_changed_-adds'),
     dict(id='C28-q1', file='pony/orm/core.py', fn='Entity._attr_changed_', old="            if status != 'modified':\n                assert status in ('loaded', 'inserted', 'updated')\n", new="            if status in ('loaded', 'inserted'):\n", expect='C28-BITS.object-is-queued'),
     dict(id='C28-q2', file='pony/orm/core.py', fn='Attribute.__set__', old="                if status != 'modified':\n                    assert status in ('loaded', 'inserted', 'updated')\n", new="                if status == 'loaded' or status == 'updated':\n", expect='C28-BITS.object-is-queued'),
     dict(id='C28-q3', file='pony/orm/core.py', fn='Entity._attr_changed_', old="            if status != 'modified':\n                assert status in ('loaded', 'inserted', 'updated')\n", new="            if status in ('loaded', 'inserted', 'updated'):\n", benign=True),
